@@ -128,6 +128,7 @@ def r13_2(ctx: Ctx) -> None:
         ctx.cannot("R13.2", CP, ret, "hsp_overlap_size", "kernel", str(err))
     # greedy filter shapes
     _greedy_filter(ctx)
+    _accumulator_not_lost(ctx)
 
 
 def _greedy_filter(ctx: Ctx) -> None:
@@ -260,6 +261,46 @@ def _tracks_last_kept(cfg: CFG, func: ast.AST, loop: ast.For, prev: str, kept: s
         if head in cfg.reach([start], avoid=refresh, within=body | {head}):
             return False, f"after `{stmt_key(node)}` the next iteration still compares with the old `{prev}`"
     return True, f"{prev} starts as {kept}[-1] and is refreshed after each of {len(changes)} changes of the list"
+
+
+def _accumulator_not_lost(ctx: Ctx) -> None:
+    """ _merge_domain_list folds each profile's hits into an accumulator: whenever the accumulator is overwritten by a value
+        that does not contain it (the next hit, too far away to be merged), it must have been added to the result first -
+        otherwise the earlier domain vanishes although nothing overlaps it """
+    qual = "_merge_domain_list"
+    func = ctx.fn(REF, qual)
+    cfg = CFG(func)
+    appends = [c for c in calls(func) if last_attr(c) == "append" and c.args and isinstance(c.args[0], ast.Name)]
+    rets = [r for r in walk_local(func) if isinstance(r, ast.Return) and r.value is not None]
+    found = 0
+    for loop in [n for n in walk_local(func) if isinstance(n, ast.For) and isinstance(n.target, ast.Name)]:
+        cur = loop.target.id
+        for node in walk_local(loop):
+            if not (isinstance(node, ast.Assign) and isinstance(node.targets[0], ast.Name) and node.targets[0].id != cur):
+                continue
+            value = node.value
+            moves_on = isinstance(value, ast.Name) and value.id == cur or \
+                isinstance(value, ast.IfExp) and any(isinstance(arm, ast.Name) and arm.id == cur for arm in (value.body, value.orelse))
+            if not moves_on:
+                continue
+            acc = node.targets[0].id
+            if not any(isinstance(c, ast.Call) and last_attr(c) == "merge" and txt(c.func.value) == acc for c in calls(loop)):
+                continue
+            found += 1
+            saves = [cfg.n(a) for a in appends if txt(a.args[0]) == acc and any(x is loop for x in _ancestors(a))]
+            # on every path of the iteration that reaches the overwrite, the accumulator was appended first
+            head = cfg.n(loop)
+            starts = [dst for dst, lab in cfg.succ[head] if lab == "T"]
+            lost = any(cfg.n(node) in ({s} | cfg.reach([s], avoid=saves + [head])) for s in starts if s not in saves)
+            ctx.ob("R13.2", REF, node, qual, f"`{acc}` saved before it is replaced", not lost,
+                   "a hit that cannot be merged with the next hit of its profile is kept: the accumulated hit is added to the "
+                   "result before the accumulator moves on",
+                   detail="" if not lost else f"`{stmt_key(node)}` overwrites the accumulated hit, which was never added to the result: "
+                   "A[0:100) and A[500:600) of a profile of length 100 give only A[500:600)", form=stmt_key(node))
+    if not found:
+        ctx.ob("R13.2", REF, func, qual, "accumulator saved before it is replaced", True,
+               "no accumulator that is overwritten by the next hit", form="", vacuous=True)
+    _ = rets
 
 
 def _groups_are_components(ctx: Ctx, func: ast.AST) -> None:
